@@ -181,7 +181,15 @@ int table_parse(struct wcfg *c, const char *spec)
                                 char *ae = a;
                                 while (*ae && *ae != ',') ae++;
                                 char asep = *ae; *ae = 0;
-                                if (a[0] == 'D' && a[1] == '=') { snprintf(cm->desc, sizeof cm->desc, "%s", a + 2); cm->has_desc = 1; }
+                                if (a[0] == 'D' && a[1] == '=') {
+                                        /* description text; the two-character sequences \n and \r stand for LF and CR inside the description */
+                                        size_t dn = 0;
+                                        for (const char *q = a + 2; *q && dn + 1 < sizeof cm->desc; q++) {
+                                                if (q[0] == '\\' && (q[1] == 'n' || q[1] == 'r')) { cm->desc[dn++] = q[1] == 'n' ? '\n' : '\r'; q++; }
+                                                else cm->desc[dn++] = *q;
+                                        }
+                                        cm->desc[dn] = 0; cm->has_desc = 1;
+                                }
                                 else if (a[0] == 'v') { if (cm->nvar >= W_MAXVAR || parse_var(&cm->var[cm->nvar], a + 1)) { free(dup); free(cmds); return -1; } cm->nvar++; }
                                 else for (char *q = a; *q; q++) switch (*q) {
                                         case 'W': cm->hmask |= HM_W; break;
@@ -252,7 +260,10 @@ void table_print(const struct wcfg *c, char *out, size_t n)
                         if (wv->rcb) AP("/r");
                         if (wv->wcb) AP("/w");
                 }
-                if (cm->has_desc) { SEP(); AP("D=%s", cm->desc); }
+                if (cm->has_desc) {
+                        SEP(); AP("D=");
+                        for (const char *q = cm->desc; *q; q++) { if (*q == '\n') AP("\\n"); else if (*q == '\r') AP("\\r"); else AP("%c", *q); }
+                }
         }
         if (o >= n && n) out[n - 1] = 0;
 }
@@ -355,7 +366,10 @@ static void init_var_value(int c, int v)
                   if (W.str_full) for (int i = 0; i < wv->size; i++) if (!tmp[i]) tmp[i] = (uint8_t)('a' + i % 26); }
                 break;
         }
-        if (wv->access == CAT_VAR_ACCESS_WRITE_ONLY && W.wo_fill) {
+        if (wv->access == CAT_VAR_ACCESS_WRITE_ONLY && W.wo_fill == 0x180) {
+                /* most negative value of the width (little endian): 00 .. 00 80 */
+                memset(tmp, 0, wv->size); tmp[wv->size - 1] = 0x80;
+        } else if (wv->access == CAT_VAR_ACCESS_WRITE_ONLY && W.wo_fill) {
                 memset(tmp, W.wo_fill, wv->size);
                 if (wv->type == CAT_VAR_BUF_STRING) tmp[wv->size - 1] = 0;
         }
@@ -519,7 +533,15 @@ static int io_read(char *ch)
         if (n == 0) { L.reads_refused++; if (W.scribble) *ch = '\n'; return nobyte; }
         int c;
         if (W.refuse_read) c = mcx_choose(n + 1); else c = mcx_choose(n);
-        if (c == n) { L.reads_refused++; if (W.scribble) *ch = '\n'; return nobyte; }
+        if (c == n) {
+                L.reads_refused++; if (W.scribble) *ch = '\n';
+                /* an application may use the 'nothing to read' moment to raise an event from inside the callback */
+                if (W.io_trigger && !W.use_mutex && W.nev > 0 && (W.trig_budget == 0 || I.S->trig_left > 0)) {
+                        int e = mcx_choose(W.nev + 1);
+                        if (e > 0) { do_trigger(e - 1, 1); L.nonquiet = 1; L.io_triggered = 1; }
+                }
+                return nobyte;
+        }
         uint8_t b = opts[c].byte;
         I.S->gen = opts[c].next;
         *ch = (char)b;
@@ -978,7 +1000,7 @@ static int do_service(void)
         /* C15 safety: OK is stable without new stimulus */
         if (was_ok && status_known) {
                 WS.ok_repeat_checked++;
-                if (!L.reads_delivered) {
+                if (!L.reads_delivered && !L.io_triggered) {
                         if (L.writes_attempted || L.handler_calls || L.var_calls)
                                 VIOL(P_C15, "C15: cat_service had returned OK, yet the next call without new stimulus emitted output or invoked callbacks");
                         else if (s != CAT_STATUS_OK)
@@ -988,7 +1010,7 @@ static int do_service(void)
                 }
         }
         /* C12 premise: a call that only met refusals changes nothing */
-        if ((W.mon & P_C12) && !W.scribble && !activity && (L.reads_refused || L.writes_refused) && evt_idle_pre && !mon_hold_pending()) {
+        if ((W.mon & P_C12) && !W.scribble && !activity && !L.io_triggered && (L.reads_refused || L.writes_refused) && evt_idle_pre && !mon_hold_pending()) {
                 WS.stutters_checked++;
                 if (w_lib_hash() != pre)
                         VIOL(P_C12, "C12: a cat_service call in which io only refused (read refused %d, write refused %d) changed parser state",
@@ -1063,7 +1085,7 @@ static int m_step(int action)
         case A_SERVICE: {
                 uint64_t h0 = W.refusal_probe ? w_lib_hash() : 0;
                 int r = do_service();
-                if (W.refusal_probe && !mcx_violated() && !L.reads_delivered && !L.writes_accepted && !L.handler_calls && !L.var_calls && !L.lock_failed
+                if (W.refusal_probe && !mcx_violated() && !L.reads_delivered && !L.writes_accepted && !L.handler_calls && !L.var_calls && !L.lock_failed && !L.io_triggered
                     && (L.reads_refused || L.writes_refused) && w_lib_hash() != h0)
                         refusal_run_probe();
                 return r;
